@@ -22,6 +22,9 @@ type FaultSpec struct {
 	Block int    `json:"block"`
 	Site  string `json:"site"` // prepare-fcu | prepare-get | process-newpayload | end-newpayload | end-fcu
 	Kind  int    `json:"kind"` // world.FaultKind
+	// InProcess (EndBlock faults that abort the block): the block is executed again by the same process (the
+	// uncommitted writes are discarded and a proposal round resets the block state) instead of after a restart
+	InProcess bool `json:"in_process,omitempty"`
 }
 
 // ChildSpec pushes an invalid child straight into FinalizeBlock.
@@ -35,6 +38,9 @@ type EngineCase struct {
 	Blocks int         `json:"blocks"`
 	Faults []FaultSpec `json:"faults,omitempty"`
 	Childs []ChildSpec `json:"childs,omitempty"`
+	// ReimportAt > 0: before that block both chains are restarted from their exported state (no fault is placed on
+	// the first block of the re-imported chain)
+	ReimportAt int `json:"reimport_at,omitempty"`
 }
 
 var faultSites = []string{"prepare-fcu", "prepare-get", "process-newpayload", "end-newpayload", "end-fcu"}
@@ -60,6 +66,11 @@ type engWorld struct {
 	head      common.Hash
 	parent    common.Hash
 	fired     int
+	beacon    []byte // reference: the recorded beacon root (hash of the consensus block that last advanced the head)
+}
+
+func (w *engWorld) recordedBeacon() ([]byte, error) {
+	return w.sim.Node.App.GoatKeeper.BeaconRoot.Get(w.sim.Node.ReadCtx())
 }
 
 func basePlan(base, i int) world.BuildPlan {
@@ -88,7 +99,12 @@ func newEngWorld() (*engWorld, error) {
 		a.Close()
 		return nil, err
 	}
-	return &engWorld{sim: a, twin: b, head: world.GenesisELHash}, nil
+	w := &engWorld{sim: a, twin: b, head: world.GenesisELHash}
+	if w.beacon, err = w.recordedBeacon(); err != nil {
+		w.close()
+		return nil, err
+	}
+	return w, nil
 }
 
 func (w *engWorld) close() { w.sim.Close(); w.twin.Close() }
@@ -142,6 +158,20 @@ func runEngineCase(c EngineCase) Outcome {
 	}
 	var headNumber uint64
 	for i := 0; i < nblocks; i++ {
+		if c.ReimportAt > 0 && i == c.ReimportAt%nblocks && i > 0 {
+			for _, s := range []*world.Sim{w.sim, w.twin} {
+				if err := s.Reimport(); err != nil {
+					o.Fail = failf("re-import", "re-import-failed", "before block %d: %v", i, err)
+					return o
+				}
+			}
+			delete(faultsAt, i)
+			o.Classes = append(o.Classes, "reimported")
+			if got, err := w.recordedBeacon(); err != nil || !bytes.Equal(got, w.beacon) {
+				o.Fail = failf("beacon-root", "beacon-root-mismatch", "after the re-import before block %d the recorded beacon root is %x (%v), reference %x", i, got, err, w.beacon)
+				return o
+			}
+		}
 		plan := basePlan(c.Base, i)
 		proposer := i % 2
 		blk := w.sim.Chain.NextBlock(5*time.Second, proposer, nil, nil)
@@ -268,6 +298,12 @@ func runEngineCase(c EngineCase) Outcome {
 				mustFail = true
 			}
 		}
+		retryInProcess := false
+		for _, f := range faultsAt[i] {
+			if f.InProcess && (f.Site == "end-newpayload" || f.Site == "end-fcu") {
+				retryInProcess = true
+			}
+		}
 		if len(endFaults) > 0 {
 			node.Eng.ArmFaults(endFaults)
 			node.Eng.TakeLog()
@@ -278,6 +314,20 @@ func runEngineCase(c EngineCase) Outcome {
 				if ferr == nil {
 					o.Fail = failf("engine-fault-aborts-block", "block-finalised-despite-engine-fault", "block %d: the engine failed in EndBlock (%v) but FinalizeBlock returned a response (app hash %X)", i, endFaults, resp.AppHash)
 					return o
+				}
+				if retryInProcess && heightBefore > 0 {
+					// the same process executes the block again after the fault cleared
+					if err := node.DiscardUncommitted(); err != nil {
+						o.Fail = failf("retry", "discard-failed", "%v", err)
+						return o
+					}
+					// an empty proposal is refused at once, without engine calls, but baseapp installs a fresh block state first
+					if _, err := node.Process(blk.ProcessReq(nil)); err != nil {
+						o.Fail = failf("retry", "process-failed", "%v", err)
+						return o
+					}
+					o.Classes = append(o.Classes, "aborted+retried-in-process")
+					goto retry
 				}
 				// CometBFT stops here; on restart the block is replayed
 				n2, err := node.Restart()
@@ -325,10 +375,16 @@ func runEngineCase(c EngineCase) Outcome {
 						return o
 					}
 					w.parent, w.head, headNumber = w.head, common.BytesToHash(ethMsg.Payload.BlockHash), ethMsg.Payload.BlockNumber
+					if !bytes.Equal(ethMsg.Payload.BeaconRoot, w.beacon) {
+						o.Fail = failf("beacon-root", "head-with-stale-beacon-root", "block %d: the new head carries beacon root %x, the previous head-advancing consensus block is %x", i, ethMsg.Payload.BeaconRoot, w.beacon)
+						return o
+					}
+					w.beacon = blk.Hash
 				}
 				goto committed
 			}
 		}
+	retry:
 		{
 			res, err := w.sim.Exec(blk, txs, false)
 			if err != nil {
@@ -354,6 +410,11 @@ func runEngineCase(c EngineCase) Outcome {
 				w.parent = w.head
 				w.head = common.BytesToHash(ethMsg.Payload.BlockHash)
 				headNumber = ethMsg.Payload.BlockNumber
+				if !bytes.Equal(ethMsg.Payload.BeaconRoot, w.beacon) {
+					o.Fail = failf("beacon-root", "head-with-stale-beacon-root", "block %d: the new head carries beacon root %x, the previous head-advancing consensus block is %x", i, ethMsg.Payload.BeaconRoot, w.beacon)
+					return o
+				}
+				w.beacon = blk.Hash
 				if !bytes.Equal(ethMsg.Payload.ParentHash, w.parent[:]) || !bytes.Equal(ethMsg.Payload.FeeRecipient, blk.Proposer) || ethMsg.Payload.BlobGasUsed != 0 {
 					o.Fail = failf("only-valid-children", "head-is-not-a-valid-child", "block %d: the new head is not a direct, blob-free child authored by the proposer", i)
 					return o
@@ -379,6 +440,10 @@ func runEngineCase(c EngineCase) Outcome {
 			o.Fail = failf("query", "query-failed", "%v", err)
 			return o
 		}
+		if got, err := w.recordedBeacon(); err != nil || !bytes.Equal(got, w.beacon) {
+			o.Fail = failf("beacon-root", "beacon-root-mismatch", "block %d: recorded beacon root %x (%v), reference %x", i, got, err, w.beacon)
+			return o
+		}
 		if tip != w.head || num != headNumber {
 			o.Fail = failf("head-model", "execution-head-mismatch", "block %d: Query/EthBlockTip %x #%d, reference %x #%d", i, tip[:4], num, w.head[:4], headNumber)
 			return o
@@ -398,6 +463,9 @@ func TestC09_SingleFaults(t *testing.T) {
 			for _, k := range siteKinds(site, thorough) {
 				for _, blk := range []int{2, 3} { // both proposers
 					all = append(all, EngineCase{Base: base, Blocks: 6, Faults: []FaultSpec{{Block: blk, Site: site, Kind: int(k)}}})
+					if (site == "end-newpayload" || site == "end-fcu") && (k == world.FaultRPCError || k == world.FaultInvalid) {
+						all = append(all, EngineCase{Base: base, Blocks: 6, Faults: []FaultSpec{{Block: blk, Site: site, Kind: int(k), InProcess: true}}})
+					}
 				}
 			}
 		}
@@ -423,7 +491,7 @@ func TestC09_SingleFaults(t *testing.T) {
 	}
 	RunEnum(t, Prop[EngineCase]{
 		ID: "C09", Name: "enumeration", Run: runEngineCase,
-		Rule: "complete enumeration, on 3 base histories (empty blocks; refunds+claims; unlocks+user transactions) with alternating proposers: every single (site, kind) with site in {forkchoiceUpdated and getPayload while proposing, newPayload while checking, newPayload and forkchoiceUpdated in EndBlock} and kind in {RPC error, INVALID, SYNCING, ACCEPTED, missing payload id (+ stall beyond the deadline in the thorough tier)}, at blocks proposed by either validator; every invalid child kind (wrong parent, number +-1, fee recipient != author, blob gas, stale beacon root, nil payload, other author) pushed straight into FinalizeBlock; thorough adds all ordered pairs of faults; oracles: a fault-free twin chain (byte-identical results after the fault clears), restart after a failed FinalizeBlock shows height/app hash/head unchanged, head model, engine call log ending with newPayload(head), forkchoice(head, parent, parent)",
+		Rule: "complete enumeration, on 3 base histories (empty blocks; refunds+claims; unlocks+user transactions) with alternating proposers: every single (site, kind) with site in {forkchoiceUpdated and getPayload while proposing, newPayload while checking, newPayload and forkchoiceUpdated in EndBlock} and kind in {RPC error, INVALID, SYNCING, ACCEPTED, missing payload id (+ stall beyond the deadline in the thorough tier)}, at blocks proposed by either validator; every invalid child kind (wrong parent, number +-1, fee recipient != author, blob gas, stale beacon root, nil payload, other author) pushed straight into FinalizeBlock; thorough adds all ordered pairs of faults; oracles: a fault-free twin chain (byte-identical results after the fault clears), restart after a failed FinalizeBlock shows height/app hash/head unchanged (for EndBlock faults also the variant in which the same process executes the block again), head model, recorded beacon root = hash of the last head-advancing consensus block and carried by the next head, engine call log ending with newPayload(head), forkchoice(head, parent, parent)",
 	}, func(yield func(EngineCase) bool) {
 		for _, c := range all {
 			if !yield(c) {
@@ -447,9 +515,15 @@ func TestC09_RandomPlans(t *testing.T) {
 			if rapid.IntRange(0, 2).Draw(t, "child") == 0 {
 				c.Childs = append(c.Childs, ChildSpec{Block: rapid.IntRange(1, 11).Draw(t, "childBlock"), Kind: rapid.IntRange(1, 8).Draw(t, "childKind")})
 			}
+			if rapid.IntRange(0, 3).Draw(t, "reimport") == 0 {
+				c.ReimportAt = rapid.IntRange(1, 11).Draw(t, "reimportAt")
+			}
+			for i := range c.Faults {
+				c.Faults[i].InProcess = rapid.Bool().Draw(t, "inProcess")
+			}
 			return c
 		},
 		Run:  runEngineCase,
-		Rule: "random multi-fault plans (1-5 faults over histories of 3-12 blocks, several faults per block, combined with invalid children) with the same oracles; non-trivial = a fault fired or an invalid child was injected; distinct by plan",
+		Rule: "random multi-fault plans (1-5 faults over histories of 3-12 blocks, several faults per block, combined with invalid children, in-process retries and a restart of both chains from their exported state) with the same oracles; non-trivial = a fault fired or an invalid child was injected; distinct by plan",
 	})
 }
